@@ -62,6 +62,45 @@ func zzPickerChecks(t *torrent, peers []*peer.Peer, from int, sequential bool) {
 		vrt.Assert(pe.Downloading == has, "peer's downloading flag differs from the download table")
 		vrt.Assert(!pe.Closed || !has, "a closed peer still has a download")
 	}
+	// no starvation: an idle, unchoked, connected peer gets a request when it holds a needed piece
+	// nobody downloads yet, or - once every needed piece is being downloaded by somebody (end
+	// game) - when it holds a needed piece whose downloads are below the end-game limit
+	allRequested := true
+	for i := uint32(0); i < zzPickPieces; i++ {
+		if t.pieces[i].Done || t.pieces[i].Writing {
+			continue
+		}
+		n := 0
+		for _, pd := range t.pieceDownloaders {
+			if pd.Piece.Index == i {
+				n++
+			}
+		}
+		if n == 0 {
+			allRequested = false
+		}
+	}
+	for _, pe := range peers {
+		if pe.Closed || pe.PeerChoking || pe.Downloading || pe.Bitfield == nil {
+			continue
+		}
+		for i := uint32(0); i < zzPickPieces; i++ {
+			if t.pieces[i].Done || t.pieces[i].Writing || !pe.Bitfield.Test(i) {
+				continue
+			}
+			n := 0
+			for _, pd := range t.pieceDownloaders {
+				if pd.Piece.Index == i {
+					n++
+				}
+			}
+			if n == 0 {
+				vrt.Assert(false, "idle unchoked peer holding a needed, unrequested piece was left without a request")
+			} else if allRequested && n < limit {
+				vrt.Assert(false, "end game: idle unchoked peer holding a needed piece below the duplicate limit was left without a request")
+			}
+		}
+	}
 	if t.piecePicker != nil {
 		var avail uint32
 		for i := uint32(0); i < zzPickPieces; i++ {
@@ -139,6 +178,12 @@ func zzPickerRun(steps int, sequential, rich bool) {
 			break
 		}
 		from := len(zzSentLog)
+		if pe.FastEnabled {
+			// a fast-extension peer may have granted one allowed-fast piece
+			if af := vrt.Choice("allowed_fast_piece", zzPickPieces+1); af < zzPickPieces {
+				t.handlePeerMessage(peer.Message{Peer: pe, Message: peerprotocol.AllowedFastMessage{HaveMessage: peerprotocol.HaveMessage{Index: uint32(af)}}})
+			}
+		}
 		bits := vrt.U8("peer_bitfield") & 0xe0
 		t.handlePeerMessage(peer.Message{Peer: pe, Message: peerprotocol.BitfieldMessage{Data: []byte{bits}}})
 		if vrt.Bool("peer_unchokes") {
@@ -229,3 +274,10 @@ func ZZPickerRich2() { zzPickerRun(2, false, true) }
 
 // ZZPickerRichSequential1: sequential mode.
 func ZZPickerRichSequential1() { zzPickerRun(1, true, true) }
+
+// ZZPickerRich0: the rich initial state alone (arbitrary progress, allowed-fast
+// grant, bitfields, choke state), rarest-first.
+func ZZPickerRich0() { zzPickerRun(0, false, true) }
+
+// ZZPickerRich0Sequential: the same in sequential mode.
+func ZZPickerRich0Sequential() { zzPickerRun(0, true, true) }
